@@ -8,12 +8,12 @@ P=$1; S=$2; PKG=$3; RE=$4; SUF=${5:-$(basename $S)}
 export GOFLAGS=-mod=mod GOPROXY=off
 W=/tmp/seedchk-$$; git -C /repo worktree add -q --detach $W HEAD
 demo=$(ls $S/*_test.go | head -1)
-cp $demo $W/$PKG/zvseed_demo_test.go
-( cd $W && go test -vet=off -count=1 -run "$RE" ./$PKG/ >/tmp/seedchk-$$.pre 2>&1 ); pre=$?
+mkdir -p $W/$PKG; cp $demo $W/$PKG/zvseed_demo_test.go
+( cd $W && go test ${SEED_GOTESTFLAGS:-} -vet=off -count=1 -run "$RE" ./$PKG/ >/tmp/seedchk-$$.pre 2>&1 ); pre=$?
 ( cd $W && go test -vet=off -count=1 ./$PKG/ 2>&1 | tail -3 >/tmp/seedchk-$$.pkgpre )
 ( cd $W && git apply $S/patch.diff ) || { echo "patch does not apply"; git -C /repo worktree remove --force $W; exit 2; }
 ( cd $W && go build ./... >/tmp/seedchk-$$.build 2>&1 ); build=$?
-( cd $W && go test -vet=off -count=1 -run "$RE" ./$PKG/ >/tmp/seedchk-$$.post 2>&1 ); post=$?
+( cd $W && go test ${SEED_GOTESTFLAGS:-} -vet=off -count=1 -run "$RE" ./$PKG/ >/tmp/seedchk-$$.post 2>&1 ); post=$?
 rm $W/$PKG/zvseed_demo_test.go
 ( cd $W && go test -vet=off -count=1 ./$PKG/ 2>&1 | tail -3 >/tmp/seedchk-$$.pkgpost )
 pkgsame=no; diff <(sed 's/[0-9.]*s$//' /tmp/seedchk-$$.pkgpre) <(sed 's/[0-9.]*s$//' /tmp/seedchk-$$.pkgpost) >/dev/null && pkgsame=yes
